@@ -9,6 +9,8 @@ import (
 	"encoding/json"
 	"errors"
 	"fmt"
+	"os"
+	"path/filepath"
 	"reflect"
 	"sort"
 	"strings"
@@ -85,6 +87,7 @@ type Env struct {
 	readers []*reader
 	parked  map[string]chan struct{}
 	active  map[string]bool // API callers with a call in progress
+	oldStores []*setec.Store
 	structs []any
 }
 
@@ -204,6 +207,9 @@ func (e *Env) Cleanup() {
 	if st := e.theStore(); st != nil {
 		st.Close()
 	}
+	for _, st := range e.oldStores {
+		st.Close()
+	}
 	synctest.Wait()
 }
 
@@ -313,6 +319,55 @@ type recCache struct {
 	wfail bool
 }
 
+// FileClientDir, when set, makes every cache write also be fed to a real FileClient (C13): the document
+// the store writes must be accepted by it and give identical results for every secret.
+var FileClientDir string
+var FileClientChecks atomic.Int64
+
+func (e *Env) checkFileClient(data []byte, doc []docEntry) {
+	if FileClientDir == "" {
+		return
+	}
+	p := filepath.Join(FileClientDir, "fc-cache.json")
+	if err := os.WriteFile(p, data, 0o600); err != nil {
+		return
+	}
+	fc, err := setec.NewFileClient(p)
+	if err != nil {
+		e.Note("the file-backed client rejects a cache document the store wrote: %v", err)
+		return
+	}
+	FileClientChecks.Add(1)
+	have := map[string]bool{}
+	for _, d := range doc {
+		have[d.Name] = true
+		sv, err := fc.Get(context.Background(), d.Name)
+		if err != nil {
+			e.Note("the file-backed client does not find %q in a cache document that holds it: %v", d.Name, err)
+			continue
+		}
+		if n, v, whole := ParseValue(sv.Value); !whole || n != d.Name || v != d.Ver || int(sv.Version) != d.Ver {
+			e.Note("the file-backed client serves %q version %d (%q) from a cache document that holds version %d", d.Name, sv.Version, sv.Value, d.Ver)
+		}
+		if _, err := fc.GetIfChanged(context.Background(), d.Name, sv.Version); !errors.Is(err, api.ErrValueNotChanged) {
+			e.Note("the file-backed client answers a conditional get of %q at its own version with %v", d.Name, err)
+		}
+	}
+	e.mu.Lock()
+	var names []string
+	for n := range e.svc {
+		names = append(names, n)
+	}
+	e.mu.Unlock()
+	for _, n := range names {
+		if !have[n] {
+			if _, err := fc.Get(context.Background(), n); !errors.Is(err, api.ErrNotFound) {
+				e.Note("the file-backed client serves %q which the cache document does not hold (err=%v)", n, err)
+			}
+		}
+	}
+}
+
 type docEntry struct {
 	Name string `json:"name"`
 	Ver  int    `json:"ver"`
@@ -375,6 +430,9 @@ func (c *recCache) Write(data []byte) error {
 	}
 	c.data = append([]byte(nil), data...)
 	c.e.Log(Event{"ev": "cachew", "ok": true, "doc": doc})
+	if whole {
+		c.e.checkFileClient(data, doc)
+	}
 	return nil
 }
 
@@ -421,6 +479,7 @@ type Step struct {
 	ForceErr    bool     `json:"forceerr,omitempty"`
 	WFail       bool     `json:"wfail,omitempty"`
 	Raw         string   `json:"raw,omitempty"` // raw cache bytes (malformed-input runs)
+	ForceKind   string   `json:"forcekind,omitempty"` // newstore: the class of the raw cache contents is known by construction
 	Park        bool     `json:"park,omitempty"` // lookup: hold the caller between the known-check and the flight
 	StructNames []string `json:"structnames,omitempty"` // newstore: names declared through a tagged struct instead of Secrets
 }
@@ -483,6 +542,9 @@ func (e *Env) Apply(s Step) bool {
 		if restart {
 			// same cache object, everything else as given; the old store is abandoned
 			e.mu.Lock()
+			if e.store != nil {
+				e.oldStores = append(e.oldStores, e.store) // abandoned like a crashed process; reaped at Cleanup
+			}
 			e.store = nil
 			e.mu.Unlock()
 		} else {
@@ -519,6 +581,9 @@ func (e *Env) Apply(s Step) bool {
 				} else {
 					kind = "garbage"
 				}
+			}
+			if s.ForceKind != "" {
+				kind, doc = s.ForceKind, []docEntry{}
 			}
 		}
 		if s.Auto {
@@ -773,6 +838,9 @@ func (e *Env) Apply(s Step) bool {
 		st := e.theStore()
 		if st == nil {
 			return false
+		}
+		if e.closed {
+			return false // Close is called once per store
 		}
 		e.Log(Event{"ev": "close"})
 		e.closed = true
